@@ -11,6 +11,7 @@ func init() {
 			"(G6/G16) both are sorted afterwards by a comparator that is total on the key type (TripID.Less consults every field); (ORDER) alerts are tail-appended once per entity in index order and never sorted. " +
 			"(SCAN) no loop that does something per entity is left by a break (an entity of no known kind does not end the message); the sort comparators are chains of stages in which a field compared only `when flag` is qualified by the flag of the stage directly before it (otherwise the order is not total). Not decided: commutativity of the loop body for conflicting duplicates (excluded by the property).",
 		Rules: []Rule{
+			{Name: "A3", Doc: "identifier fields of trips and vehicles are bound to their own wire fields: entities are merged by the identifier that was sent", MinInstances: 35, Run: runWireTable},
 			{Name: "SCAN", Doc: "a loop that does something for each element is not left early (no break out of a processing loop)", MinInstances: 1, Run: func(c *Ctx) { runFullScan(c, realtimeFns(c), "SCAN") }},
 			{Name: "MERGE", Doc: "merge discipline, uniqueness, alert order", MinInstances: 7, Run: runMergeRules},
 			{Name: "G6", Doc: "map-built output sorted by a total key comparator", MinInstances: 1, Run: func(c *Ctx) {
@@ -30,6 +31,7 @@ func init() {
 			"each association table is written under the same test that decides where the vehicle itself is kept (the table that keeps the parsed vehicle only under vehicle.ID == nil, the id-keyed ones only under vehicle.ID != nil); no path of one trip around the entity loop on which the entity yields both a trip and a vehicle returns to the loop head without passing one of the link-table updates; (GUARD) the entity parsers return a nil trip/vehicle only when the wire field is absent, so every expression of an association reaches the tables; an identifier object is produced only for a descriptor that identifies something (every non-nil result of the descriptor-to-VehicleID conversion has ruled out the all-empty identifier), so empty descriptors do not share one identified entry. " +
 			"Equality of the content reached through the links with the list entries follows from the copies being taken after the links are stored (checked) plus C07. Not decided: feeds with several vehicles per trip (excluded).",
 		Rules: []Rule{
+			{Name: "A3", Doc: "identifier fields of trips and vehicles are bound to their own wire fields: which entities are one vehicle (and get linked) is decided on id, label and licence plate as sent", MinInstances: 35, Run: runWireTable},
 			{Name: "LINK", Doc: "trip<->vehicle link discipline", MinInstances: 5, Run: runLinkRules},
 			{Name: "GUARD", Doc: "entity parsers return nil only for absent wire fields", MinInstances: 2, Run: runParserGuards},
 		},
